@@ -74,6 +74,7 @@ type Setup struct {
 	Static   *StaticSpec
 	Svc      bool
 	FinalEcho bool
+	EnvLate  bool // the environment is switched to Env only after set-up (middleware constructed under another one)
 	Routes   []*RouteSpec // flattened, in registration order
 }
 
@@ -129,6 +130,7 @@ type Profile struct {
 	RendererPm   int
 	StaticPm     int
 	SvcPm        int
+	EnvLatePm    int
 	GroupPm      int
 	ActionPm     int
 	NotFoundPm   int
@@ -151,6 +153,7 @@ type Profile struct {
 	MissingPm  int  // per set-up: one handler asks for a type nobody mapped
 	BadStatus  int  // per request: one status is outside 100..999
 	WFaultPm   int  // per request: writer fault plan
+	HookPanicPm int // per request: a BeforeFunc that panics, fired by a write of the handler that registered it
 	CancelPm   int  // per request: planned cancel at a chain-relevant yield index
 	DeadlinePm int  // per request: virtual deadline
 	FaultFree  int  // per run: all faults off
@@ -188,6 +191,7 @@ func GenSetup(g *tape.Stream, p *Profile) *Setup {
 	g.Begin("setup")
 	defer g.End()
 	s.Env = p.Envs[g.Intn(len(p.Envs))]
+	s.EnvLate = g.Chance(p.EnvLatePm)
 	haveRender := false
 	recoveryPlaced := false
 	wantRecovery := p.RecoveryMust || g.Chance(p.RecoveryPm)
@@ -437,7 +441,11 @@ func (s *Setup) Describe() []string {
 	for _, x := range s.Batches {
 		b += itoa(x) + " "
 	}
-	out = append(out, "env="+[]string{"dev", "prod", "test"}[s.Env]+" use["+hs(s.Mw)+"] batches="+strings.TrimSpace(b))
+	late := ""
+	if s.EnvLate {
+		late = "(set after set-up)"
+	}
+	out = append(out, "env="+[]string{"dev", "prod", "test"}[s.Env]+late+" use["+hs(s.Mw)+"] batches="+strings.TrimSpace(b))
 	if s.NotFound != nil {
 		out = append(out, "notfound["+hs(s.NotFound)+"]")
 	}
